@@ -65,6 +65,10 @@ CLAIMED = {
             "TLC checks that the construction sequence of the sandbox (open libraries, remove globals and members, protect tables, register APIs) leaves only pure library members, inert data and registered APIs reachable, with every library table protected, and that omitting any single effective step breaks this; the real environment is walked from the Go side and compared with the model's closure, and every program of the escape / table-write / non-termination / return-value grammar is rendered to Lua and run through RunScript with a 1 s timeout under a hard outer deadline, TLC judging denial, deadline and exit code.",
             "Purity of allow-listed functions trusted; hook selection per principal not yet exercised; needs the verif accessor for the interpreter state.",
             "DESIGN.md section 4 C20"),
+    "C12": ("PolicyApply.tla, MC_PolicyApply.tla, Trace_PolicyApply.tla",
+            "TLC explores every sequence of root-of-trust edits by root principals and outsiders, signatures, apply, discard and direct tampering with the policy / staging refs up to the bound and checks that only Apply moves the policy ref, only to a self-valid staged descendant, never when a ref is out of sync, that outsiders cannot edit the root and that whatever Apply publishes stays loadable; emitted histories are replayed through experimental/gittuf.Repository on real Git repositories and TLC judges what was observed after every step.",
+            "Root edits only; real git with ssh-keygen based signers, so the replayed sample is small in the quick tier.",
+            "DESIGN.md section 4 C12"),
 }
 
 NOT_YET = {
